@@ -421,6 +421,8 @@ func (g *G) ifStmt() {
 		g.ind++
 		g.line("_ = %s", v.Name)
 		g.ind--
+	} else if call := g.callForHeader(); call != "" && g.r.Chance(1, 3) {
+		g.line("if %s; %s {", call, cond)
 	} else {
 		g.line("if %s {", cond)
 	}
@@ -442,6 +444,33 @@ func (g *G) ifStmt() {
 	}
 	g.line("}")
 	g.pop()
+}
+
+// callForHeader renders a call usable as the simple statement of an if / for
+// header: any callable function with variable-or-literal arguments, results
+// discarded.
+func (g *G) callForHeader() string {
+	if g.noCalls {
+		return ""
+	}
+	var cands []*Func
+	for _, f := range g.callable() {
+		if f.Recv == nil && !f.Rec && (!g.curPure || f.Pure) {
+			cands = append(cands, f)
+		}
+	}
+	if len(cands) == 0 {
+		return ""
+	}
+	f := core.Pick(g.r, cands)
+	save := g.noCalls
+	g.noCalls = true
+	args, ok := g.callArgs(f)
+	g.noCalls = save
+	if !ok || strings.Contains(args, "...") {
+		return ""
+	}
+	return g.fname(f) + "(" + args + ")"
 }
 
 func (g *G) loopBody(n int) {
@@ -466,7 +495,32 @@ func (g *G) loopBody(n int) {
 
 func (g *G) forStmt() {
 	g.push()
-	switch g.r.Intn(5) {
+	kind := g.r.Intn(5)
+	if call := g.callForHeader(); call != "" && g.r.Chance(1, 4) {
+		// a call as init and/or post statement of the for clause
+		c := &Var{Name: g.name("n"), T: TInt, RO: true, Small: true}
+		g.line("%s := 0", c.Name)
+		g.declare(c)
+		switch g.r.Intn(3) {
+		case 0:
+			g.line("for %s; %s < %d; %s++ {", call, c.Name, g.r.Range(1, 3), c.Name)
+			g.ind++
+		case 1:
+			g.line("for %s = 0; %s < %d; %s {", c.Name, c.Name, g.r.Range(1, 3), call)
+			g.ind++
+			g.line("%s++", c.Name)
+		default:
+			g.line("for %s; %s < %d; %s {", call, c.Name, g.r.Range(1, 3), call)
+			g.ind++
+			g.line("%s++", c.Name)
+		}
+		g.loopBody(g.r.Range(1, 3))
+		g.ind--
+		g.line("}")
+		g.pop()
+		return
+	}
+	switch kind {
 	case 0, 1:
 		i := &Var{Name: g.name("i"), T: TInt, RO: true, Small: true}
 		n := g.r.Range(1, 4)
@@ -553,6 +607,7 @@ func (g *G) rangeStmt() {
 		case 0:
 			g.line("for %s, %s := range %s {", k.Name, v.Name, name)
 			g.ind++
+			g.line("_, _ = %s, %s", k.Name, v.Name)
 			g.line("%s += %s + %s", acc, g.hashOf(k), g.hashOf(v))
 		case 1:
 			g.line("for %s := range %s {", k.Name, name)
@@ -561,6 +616,7 @@ func (g *G) rangeStmt() {
 		default:
 			g.line("for _, %s := range %s {", v.Name, name)
 			g.ind++
+			g.line("_ = %s", v.Name)
 			g.line("%s += %s", acc, g.hashOf(v))
 			g.line("%s++", acc)
 		}
@@ -670,8 +726,8 @@ func (g *G) switchStmt() {
 	var t *Type
 	if tagged {
 		t = core.Pick(g.r, []*Type{TInt, TInt, TString, TUint8, TBool})
-		tag, _ := g.expr(t, 2)
-		if isLiteralish(tag) || tag == "true" || tag == "false" || strings.HasPrefix(tag, `"`) || strings.HasPrefix(tag, "`") {
+		tag, tagConst := g.expr(t, 2)
+		if tagConst || isLiteralish(tag) || tag == "true" || tag == "false" || strings.HasPrefix(tag, `"`) || strings.HasPrefix(tag, "`") {
 			// a constant tag with constant cases makes Go reject duplicate/mismatched constants; use a variable
 			v := g.newLocal(t)
 			g.line("var %s %s = %s", v.Name, t.str(g.pkg), tag)
